@@ -323,6 +323,11 @@ def run_real(case):
                           f"{n} was pending or running (submitted by the first invocation, its job had not ended) when the "
                           f"second `gwf run` started, yet it was submitted again")
             # ---- C13: final states and logs
+            # a cancelled task that a later run submitted again: its second job runs normally, but a dependent that
+            # was already in the pool still hangs on the first, cancelled job (and is cancelled with it) unless it was
+            # submitted again too - which of the two happens depends on how far the kill sequence had come when the
+            # second run looked. Everything downstream of such a task is therefore not asserted.
+            renewed = {i for i in cancelled if names[i] in resubmitted}
             cancelled = {i for i in cancelled if names[i] not in resubmitted}
             # did the cancel arrive in time?  A task that journalled its end before the cancel was sent had
             # finished: cancelling it changes nothing.  An end inside the cancel command's own duration is ambiguous.
@@ -339,9 +344,11 @@ def run_real(case):
             while changed:  # everything downstream of an ambiguous task is ambiguous too
                 changed = False
                 for i, t in enumerate(tasks):
-                    if i not in ambiguous and any(d in ambiguous for d in t["deps"]):
+                    if i not in ambiguous and any(d in ambiguous or d in renewed for d in t["deps"]):
                         ambiguous.add(i)
                         changed = True
+            if renewed:
+                labels.add("cancelled-task-submitted-again")
             failed_or_blocked = set()
             for i, t in enumerate(tasks):
                 if t["rc"] != 0 or i in cancelled or any(d in failed_or_blocked for d in t["deps"]):
